@@ -23,6 +23,7 @@ RULES = {
     "R-C14-d": "exactly once: the cases are pairwise distinct and the branch conditions (len(dims) > 1, base_rowids is None) partition",
     "R-C14-e": "the common category is never presented: entries are iterated without force and .common is never read",
     "R-C14-f": "INTERSECT is the set_intersect_merge_np kernel (exact by C08) with (base rows, entry rows)",
+    "R-C14-h": "no early exit: _walk has no return / break / raise inside an entry loop and no explicit return before the margin sites, so every entry is visited and every activation reaches its margin",
     "R-C14-g": "walk wraps a single callable and starts at ((), None) over self.dims; interactions collects exactly the delivered pairs",
 }
 REQUIRED = {
@@ -199,6 +200,67 @@ def analyse(prog, rep):
             rep.violated("R-C14-d", where, "missing case: " + cons, "the walk never presents this combination", witness={"inputs": "any cube where this combination has rows"})
         else:
             rep.violated("R-C14-d", where, "duplicated case: " + cons, "presented at lines %s: delivered more than once" % [g["ev"].line for g in got])
+    # ---- R-C14-h: abrupt exits
+    def lens_true(g):
+        """terms X for which `len(X)` is known truthy on this path"""
+        out = []
+        for c, pol in g:
+            if pol and c.op == "call" and tm.callee_name(c) == "builtins.len":
+                out.append(c.args[1][0])
+            if c.op == "cmp" and c.args[0] in (">", "!=") and pol and c.args[1].op == "call" and tm.callee_name(c.args[1]) == "builtins.len" and tm.is_const(c.args[2], 0):
+                out.append(c.args[1].args[1][0])
+        return out
+
+    def base_nonempty(g):
+        for x in lens_true(g):
+            if x == base_rowids or any(a.op == "call" and tm.callee_name(a) == KERNEL and base_rowids in a.args[1] for a in tm.alts(x)):
+                return True
+        # base rows absent (top level): the margin stands for all rows
+        return any(c.op == "cmp" and c.args[0] == "is" and pol and base_rowids in c.args[1:] and tm.NONE in c.args[1:] for c, pol in g)
+
+    def base_empty(g):
+        for c, pol in g:
+            if not pol and c.op == "call" and tm.callee_name(c) == "builtins.len" and c.args[1][0] == base_rowids:
+                return True
+            if pol and c.op == "cmp" and c.args[0] == "==" and c.args[1].op == "call" and tm.callee_name(c.args[1]) == "builtins.len" and c.args[1].args[1][0] == base_rowids and tm.is_const(c.args[2], 0):
+                return True
+        return False
+
+    def exhausted(g):
+        """`len(INTERSECT(base, entry)) == len(base)`: every base row is in this entry; entries of a
+        1-D dimension are disjoint (C07), so the remaining entries cannot intersect."""
+        for c, pol in g:
+            if pol and c.op == "cmp" and c.args[0] in ("==", ">=") and all(x.op == "call" and tm.callee_name(x) == "builtins.len" for x in c.args[1:]):
+                xs = [x.args[1][0] for x in c.args[1:]]
+                if base_rowids in xs and any(a.op == "call" and tm.callee_name(a) == KERNEL for x in xs for a in tm.alts(x)):
+                    return True
+        return False
+
+    exits = [ev for ev in I.events if not ev.stack and ev.kind in ("return", "break", "raise") and (ev.loops or ev.node.__class__.__name__ in ("Return", "Raise"))]
+    seen_k = set()
+    for ev in exits:
+        k = (ev.kind, ev.line)
+        if k in seen_k:
+            continue
+        seen_k.add(k)
+        g = flat_guards(ev.guards)
+        w = "%s@%d" % (where, ev.line)
+        cons = "early exit from the walk: %s%s" % (ev.kind, " inside an entry loop" if ev.loops else "")
+        margin_after = any(c["coords"] == "margin" and c["ev"].seq > ev.seq for c in cases)
+        if ev.kind == "break":
+            if exhausted(g):
+                rep.proved("R-C14-h", w, cons, "taken only when every base row lies in the current entry: the remaining entries of a 1-D dimension cannot intersect (disjoint by C07)")
+            else:
+                rep.undecided("R-C14-h", w, cons, "a break skips the remaining entries; the analysis cannot decide whether they could still intersect")
+        elif base_empty(g):
+            rep.proved("R-C14-h", w, cons, "taken only when there are no base rows: nothing further could be presented")
+        elif margin_after and base_nonempty(g):
+            rep.violated("R-C14-h", w, cons, "the %s is taken on a path where base rows exist (or the walk is at the top level), and it skips the margin of this activation%s" % (ev.kind, " and the remaining entries" if ev.loops and not exhausted(g) else ""),
+                         witness={"inputs": "3-D cube in which the exit condition holds for one entry of the middle dimension: the margin cell (a, -1, c) is never presented and differencing makes the common cells wrong"})
+        else:
+            rep.undecided("R-C14-h", w, cons, "an early %s whose justification the analysis cannot decide" % ev.kind)
+    if not exits:
+        rep.proved("R-C14-h", where, "no return / break / raise inside the entry loops; no explicit return", "%d loops, every activation falls through to its margin" % len(I.loopinfo))
     # ---- R-C14-e
     forced = [ev for ev in I.events if ev.kind == "call" and ev["method"] == "items" and (ev["args"] or ev["kwargs"])]
     rep.check(not forced, "R-C14-e", where, "entries are iterated with items() and no force argument", "", "items(force=...) is used: the common category would be presented")
